@@ -577,6 +577,76 @@ func c16(x *mon.Ctx) {
 		setProcs(prev)
 		x.Note("concurrent-round", fmt.Sprintf("round%d/%s/%s/goroutines=%d/procs=%d", round, s.name, form, ng, procs), true, false, true)
 	}
+	// (b'') the same, for a quote the process has met before and has since seen many OTHER distinct quotes (distinct PCK chains,
+	//       QE reports, keys): whatever per-process memory the library keeps about inputs (and rotates, evicts, promotes) is shared
+	//       state that concurrent verifications of the returning quote touch
+	{
+		rr := x.Rand("c16-returning-quote")
+		wq := world.Honest(rr, world.HonestOpts{Shape: world.QuoteShape{AuthLen: 32}})
+		cq := wq.Case(world.LBase, "concurrent-after-many-others", "returning")
+		m := mon.MessageFor("parsed", cq.Quote)
+		q, _ := ref.ParseQuote(cq.Quote)
+		raw := append([]byte(nil), cq.Quote...)
+		solo := map[int]string{}
+		for ci, call := range apiCalls16 {
+			vo, _ := mon.Options(cq)
+			solo[ci] = call.f(m, raw, vo, policyFor(q, 0))
+		}
+		// the quote returns at distances of half a plausible memory size, several times per size: a memory that ages in
+		// generations of G entries has the returning quote in its previous generation at every second return for distance G/2
+		var laps []int
+		for _, g := range []int{64, 256, 1024, 4096} {
+			for k := 0; k < 5; k++ {
+				laps = append(laps, g/2)
+			}
+		}
+		if !x.Quick() {
+			laps = append(laps, 8192, 8192, 8192, 32768, 32768, 32768)
+		}
+		total := 0
+		for lap, nother := range laps {
+			total += nother
+			x.Each(nother, func(i int) {
+				w2 := wq.Clone()
+				w2.PKI.Leaf = world.Reissue(wq.PKI.Leaf, wq.PKI.Inter, func(t *x509Cert) { t.SerialNumber = world.NextSerial() })
+				w2.Q.Chain = world.ChainPEM(false, w2.PKI.Leaf, w2.PKI.Inter, w2.PKI.Root)
+				w2.Att = world.NewKey()
+				w2.Q.AttPub = world.RawPub(&w2.Att.PublicKey)
+				w2.Requote()
+				c := w2.Case(world.LBase, "concurrent-after-many-others", "other")
+				out := mon.RunVerify(c)
+				x.Note("concurrent-after-many-others", fmt.Sprintf("lap%d/other%d", lap, i), out.Accepted, out.Panic != "", true)
+			})
+			var wg sync.WaitGroup
+			start := make(chan struct{})
+			for g := 0; g < 16; g++ {
+				wg.Add(1)
+				go func(g int) {
+					defer wg.Done()
+					vo, _ := mon.Options(cq)
+					po := policyFor(q, 0)
+					<-start
+					for k := 0; k < len(apiCalls16); k++ {
+						ci := (g + k) % len(apiCalls16)
+						var v string
+						pv, _ := mon.Guard(func() { v = apiCalls16[ci].f(m, raw, vo, po) })
+						if pv != "" || v != solo[ci] {
+							mu.Lock()
+							mismatches++
+							if mismatches <= 3 {
+								x.Violation("concurrent-after-many-others", fmt.Sprintf("lap%d/%s/g%d", lap, apiCalls16[ci].name, g), fmt.Sprintf("concurrent verdict %q (panic %q) for a returning quote differs from its solo verdict %q", v, pv, solo[ci]), "verify", cq)
+							}
+							mu.Unlock()
+						}
+					}
+				}(g)
+			}
+			close(start)
+			wg.Wait()
+			x.Note("concurrent-after-many-others", fmt.Sprintf("lap%d/returning", lap), true, false, true)
+		}
+		x.Require("concurrent-after-many-others", total, 0, total)
+	}
 	x.Extra["concurrent_calls"] = calls
 	x.Extra["concurrent_rounds"] = rounds
 	x.Require("concurrent-round", rounds, 0, rounds)
